@@ -41,7 +41,8 @@ def _base2dec(value, base):
 
     if value in (None, EMPTY):
         value = '0'
-    elif isinstance(value, (int, float)) and value >= 0:
+    elif isinstance(value, (int, float)) and 0 <= value < 10 ** 10:
+        # a number of up to 10 digits, larger ones (and infinity) are #NUM!
         if int(value) == value:
             value = str(int(value))
 
@@ -58,6 +59,22 @@ def _base2dec(value, base):
     return NUM_ERROR
 
 
+def _to_int(value):
+    """The integer part of a number or of numeric text, else an error value"""
+    try:
+        value = coerce_to_number(value)
+        if isinstance(value, str):
+            # not a number for excel, even where int() reads one ('1_0')
+            return VALUE_ERROR
+        return int(value)
+    except ValueError:
+        # not a number (NaN)
+        return VALUE_ERROR
+    except OverflowError:
+        # infinite, as is numeric text beyond the largest float ('1e400')
+        return NUM_ERROR
+
+
 def _dec2base(value, places=None, base=16):
     value = list(flatten(value))
     if len(value) != 1 or isinstance(value[0], bool):
@@ -72,14 +89,9 @@ def _dec2base(value, places=None, base=16):
             return NUM_ERROR
         value = 0
 
-    value = coerce_to_number(value)
-    if isinstance(value, str):
-        # not a number for excel, even where int() reads one ('1_0')
-        return VALUE_ERROR
-    try:
-        value = int(value)
-    except ValueError:
-        return VALUE_ERROR
+    value = _to_int(value)
+    if value in ERROR_CODES:
+        return value
 
     mask = _SIZE_MASK[base]
     if not (-mask <= value < mask):
@@ -94,10 +106,9 @@ def _dec2base(value, places=None, base=16):
     else:
         if places in ERROR_CODES:
             return places
-        places = coerce_to_number(places)
-        if isinstance(places, str):
-            return VALUE_ERROR
-        places = int(places)
+        places = _to_int(places)
+        if places in ERROR_CODES:
+            return places
         if places < len(value):
             return NUM_ERROR
     return value.zfill(places)
